@@ -178,10 +178,20 @@ def markBaseApply (c : Ctx) (markCov baseCov : Gsub.Cov) (marks : MarkArray) (an
             | some baseIndex =>
               marksApply { c with lastBase := lb, lastBaseUntil := untl } marks (anchors.get baseIndex) markIndex t
 
-/-- "Find component to attach to": the mark's own component when it belongs to this ligature, else the last one -/
+/-- "Find component to attach to", the u16 value the code subtracts 1 from: `if matches { mark_comp.min(comp_count) } else
+    { comp_count }` with `matches = lig_id != 0 && lig_id == mark_id && mark_comp > 0`.  `mark_comp` is 0 for a glyph that is
+    itself a ligature base (`_hb_glyph_info_get_lig_comp`), e.g. an output of a MultipleSubst applied to a ligature glyph, which
+    keeps the ligature's id: without the `mark_comp > 0` test the value would be `min 0 n = 0` and the `- 1` would underflow. -/
+def ligComponentSel (lig cur : Info) (compCount : Nat) : Nat :=
+  if Gsub.ligId lig != 0 && Gsub.ligId lig == Gsub.ligId cur && Gsub.ligComp cur > 0
+  then min (Gsub.ligComp cur) compCount else compCount
+
+/-- "Find component to attach to": the mark's own component when it belongs to this ligature, else the last one.
+    `- 1` is a u16 subtraction in the code (it traps in the overflow-checked build and wraps in the release build when the
+    minuend is 0); `C07_marklig_component_total` shows the minuend is never 0 once `comp_count == 0` has been turned away,
+    so the truncating `Nat` subtraction is exact. -/
 def ligComponent (lig cur : Info) (compCount : Nat) : Nat :=
-  (if Gsub.ligId lig != 0 && Gsub.ligId lig == Gsub.ligId cur && Gsub.ligComp cur > 0
-   then min (Gsub.ligComp cur) compCount else compCount) - 1
+  ligComponentSel lig cur compCount - 1
 
 /-- src: mark_lig_pos.rs::MarkToLigatureAdjustment::apply -/
 def markLigApply (c : Ctx) (markCov ligCov : Gsub.Cov) (marks : MarkArray) (ligs : List Matrix) : GM (Ctx × Bool) :=
